@@ -147,6 +147,80 @@ def schedRoute (hasRaptorId : Bool) (m : Mode) (seen : Bool) : SchedRoute :=
 def targetState (exitCode : Option Int) : String :=
   if exitCode.getD (-1) = 0 then "DONE" else "FAILED"
 
+/-! ### (3b) the scheduler's raptor backlog
+  requests naming a master (`some m`) or any master (`none`, raptor_id '*') are handed to the
+  master's queue if it is registered, shared out round robin for '*', or kept until a queue registers -/
+
+structure Fwd where
+  queues    : List Nat                          -- registered masters, in registration order
+  backlog   : List (Option Nat × List Nat)      -- `_raptor_tasks`: key (none = '*') -> waiting requests
+  delivered : List (Nat × Nat)                  -- (master, request) in the order they were put
+  failed    : List Nat
+  canceled  : List Nat
+deriving DecidableEq, Repr
+
+def blGet (b : List (Option Nat × List Nat)) (k : Option Nat) : List Nat :=
+  match b.find? (fun e => e.1 = k) with
+  | some e => e.2
+  | none   => []
+
+def blAdd (b : List (Option Nat × List Nat)) (k : Option Nat) (ts : List Nat) : List (Option Nat × List Nat) :=
+  if b.any (fun e => e.1 = k) then b.map (fun e => if e.1 = k then (e.1, e.2 ++ ts) else e) else b ++ [(k, ts)]
+
+def blDel (b : List (Option Nat × List Nat)) (k : Option Nat) : List (Option Nat × List Nat) :=
+  b.filter (fun e => e.1 ≠ k)
+
+/-- `idx % n_names` over the registered queues -/
+def roundRobin (queues : List Nat) (ts : List Nat) : List (Nat × Nat) :=
+  (List.range ts.length).filterMap (fun i =>
+    match queues[i % queues.length]?, ts[i]? with
+    | some q, some t => some (q, t)
+    | _, _ => none)
+
+/-- one drain of `_schedule_incoming`: the raptor requests of this drain, grouped by key in
+    first-occurrence order -/
+def fwdIncoming (s : Fwd) : List (Option Nat × List Nat) → Fwd
+  | []            => s
+  | (k, ts) :: gs =>
+    (match k with
+     | some m =>
+       if m ∈ s.queues then fwdIncoming { s with delivered := s.delivered ++ ts.map (fun t => (m, t)) } gs
+       else fwdIncoming { s with backlog := blAdd s.backlog k ts } gs
+     | none =>
+       if s.queues ≠ [] then fwdIncoming { s with delivered := s.delivered ++ roundRobin s.queues ts } gs
+       else fwdIncoming { s with backlog := blAdd s.backlog k ts } gs)
+
+/-- `register_raptor_queue` -/
+def fwdRegister (s : Fwd) (m : Nat) : Fwd :=
+  { s with queues := if m ∈ s.queues then s.queues else s.queues ++ [m],
+           delivered := s.delivered ++ (blGet s.backlog (some m)).map (fun t => (m, t))
+                                    ++ (blGet s.backlog none).map (fun t => (m, t)),
+           backlog := blDel (blDel s.backlog (some m)) none }
+
+/-- `unregister_raptor_queue` -/
+def fwdUnregister (s : Fwd) (m : Nat) : Fwd :=
+  { s with queues := s.queues.filter (· ≠ m),
+           failed := s.failed ++ blGet s.backlog (some m),
+           backlog := blDel s.backlog (some m) }
+
+/-- `cancel_tasks`: waiting requests named by the message are canceled -/
+def fwdCancel (s : Fwd) (uids : List Nat) : Fwd :=
+  { s with canceled := s.canceled ++ (s.backlog.flatMap (fun e => e.2.filter (fun t => t ∈ uids))),
+           backlog := s.backlog.map (fun e => (e.1, e.2.filter (fun t => t ∉ uids))) }
+
+inductive FOp where
+  | incoming (groups : List (Option Nat × List Nat))
+  | register (m : Nat)
+  | unregister (m : Nat)
+  | cancel (uids : List Nat)
+deriving DecidableEq, Repr
+
+def fwdStep (s : Fwd) : FOp → Fwd
+  | .incoming gs  => fwdIncoming s gs
+  | .register m   => fwdRegister s m
+  | .unregister m => fwdUnregister s m
+  | .cancel us    => fwdCancel s us
+
 /-! ### (4) the dispatchers: what a payload does, what is reported, what is restored -/
 
 inductive Outcome where
